@@ -15,6 +15,9 @@ Topics
             try_new timeout; libs/testing/src/odk.rs try_new timeout;
             libs/serial/src/serial_port.rs configure_port setters
   VSign     libs/testing/src/virtual_sign_bus.rs  dispatch and per-handler state tables
+  Core      libs/core/src/page.rs (every method of `impl Page`) and libs/core/src/frame.rs (checksum, payload,
+            to_bytes, to_bytes_with_newline; Data::try_new and the regular expression as templates), compiled
+            statement by statement (translate_core.py)
   VSignFull libs/testing/src/virtual_sign_bus.rs  every method of `impl VirtualSign`, compiled statement by
             statement into a state-passing function (translate_vsign.py), and the bus loop
   Controller  src/sign.rs   every protocol method of `impl Sign`, compiled statement by statement into an
@@ -855,7 +858,15 @@ def gen_vsign_full(repo):
     return translate_vsign.gen_vsign_full(repo)
 
 
+def gen_core(repo):
+    import translate_core
+    files, body = translate_core.gen_core(repo)
+    gen_core.notes = translate_core.gen_core.notes
+    return files, body
+
+
 TOPICS = {
+    "Core": (gen_core, ["Flipdot.Tie.CoreSupport"], "Flipdot.Generated.Core"),
     "VSignFull": (gen_vsign_full, ["Flipdot.Tie.VSignSupport"], "Flipdot.Generated.VSignFull"),
     "Controller": (gen_controller, ["Flipdot.Tie.CtrlSupport"], "Flipdot.Generated.Controller"),
     "Message": (gen_message, ["Flipdot.Tie.Kind"], "Flipdot.Generated.Message"),
